@@ -121,7 +121,14 @@ def _isolation_suite(tier):
             warnings.simplefilter("ignore")
             s = Sampler(lambda u: 8.0 * u - 4.0, lambda x: float(np.logaddexp(-2.0 * np.sum((x - 1.5) ** 2), -2.0 * np.sum((x + 1.5) ** 2))),
                         d, n_particles=n, clustering=clustering, sample=kernel, n_steps=1, n_max_steps=2, random_state=seed)
-            s.run(n_total=2 * n, progress=False)
+            try:
+                s.run(n_total=2 * n, progress=False)
+            except np.linalg.LinAlgError as e:
+                # known finding F24 occurring by itself on these small populations (the mode constructor refuses a degenerate
+                # cluster): the run is still a function of its seed -- the two runs of a pair must then abort identically, at
+                # the same iteration with the same particles
+                c.count("run_aborted_by_F24(degenerate cluster refused; pair compared on the abort)")
+                return ("raised", type(e).__name__, str(e), int(s.state.get_current("iter")), s.state.get_current("u").tobytes())
             x, w, l = s.posterior()
         return float(s.evidence()[0]), x.tobytes(), w.tobytes()
     for k in range(3 if tier == "quick" else 12):
